@@ -73,7 +73,9 @@ def check(prog: Program, tier: str) -> Result:
     _r17_15(prog, res)
     _r17_16(prog, res)
     _r17_17(prog, res)
-    res.floors.update({"R17.17": 1, "R17.16": 1, "R17.15": 2, "R17.14": 10, "R17.13": 2, "R17.12": 1, "R17.11": 3, "R17.10": 3, "R17.9": 3, "R17.1": 12, "R17.2": 10, "R17.3": 4, "R17.4": 40, "R17.5": 6, "R17.6": 4, "R17.7": 2, "R17.8": 1})
+    _r17_18(prog, res)
+    _r17_19(prog, res)
+    res.floors.update({"R17.19": 1, "R17.18": 1, "R17.17": 1, "R17.16": 1, "R17.15": 2, "R17.14": 10, "R17.13": 2, "R17.12": 1, "R17.11": 3, "R17.10": 3, "R17.9": 3, "R17.1": 12, "R17.2": 10, "R17.3": 4, "R17.4": 40, "R17.5": 6, "R17.6": 4, "R17.7": 2, "R17.8": 1})
     res.analysed["bound_claims"] = n_claims
     return res
 
@@ -542,6 +544,72 @@ def _reader_obligation(prog: Program, res: Result, fn: Func, sub: ast.Subscript)
     res.decide(single, "R17.1", fn.loc(ctor), fn.fq, f"single-operator restriction for {src}",
                "the comparison is selected by a template with exactly one operator/comparator" if single else
                "no template restricts the negated comparison to a single operator: `a < b < c` would become `a >= b >= c`")
+
+
+# ------------------------------------------------------------------------------------------------ R17.19
+def _r17_19(prog: Program, res: Result) -> None:
+    """`a and (b and c)` is `a and b and c`; `a and (b or c)` is not `a and b and c`.  Where the bound analysis collects the operands of an
+    and/or expression and takes the operands of a NESTED and/or expression into the same list (so that their bounds are compared with
+    the outer ones), the nested expression has to have the same operator: the admitting test mentions the operator of both (a template
+    `ast.BoolOp(op=type(<outer>.op))`, or a comparison of the two `.op`)."""
+    from ..defuse import bindings
+    n = 0
+    for fn in prog.funcs.values():
+        if fn.mod.name != "symbolic_math" or not fn.is_fix:
+            continue
+        for t in walk_own(fn.node):
+            if not isinstance(t, ast.If) or "BoolOp" not in norm(t.test):
+                continue
+            # body takes the operands of the tested value into a list: X.extend(<v>.values) / X += <v>.values / for .. in <v>.values: X.append
+            subject = None
+            for c in ast.walk(t):
+                if isinstance(c, ast.Attribute) and c.attr == "values" and isinstance(c.value, ast.Name) and c.value.id in {x.id for x in ast.walk(t.test) if isinstance(x, ast.Name)}:
+                    subject = c.value.id
+            grows = any(isinstance(c, ast.Call) and isinstance(c.func, ast.Attribute) and c.func.attr in ("extend", "append") for b in t.body for c in ast.walk(b)) \
+                or any(isinstance(b, ast.AugAssign) for b in t.body)
+            if subject is None or not grows:
+                continue
+            n += 1
+            txt = norm(t.test).replace(" ", "")
+            same = ("op=type(" in txt and ".op)" in txt) or (f"type({subject}.op)" in txt and ".op" in txt.replace(f"type({subject}.op)", "", 1)) or \
+                (f"isinstance({subject}.op,type(" in txt) or ("op=ast.And" in txt) or ("op=ast.Or" in txt)    # pinned to one operator (the `if` clauses of a comprehension are a conjunction)
+            res.decide(same, "R17.19", fn.loc(t), fn.fq, f"{short(t.test, 70)} # operands of a nested and/or taken into the list of the outer one",
+                       "only for a nested expression with the same operator" if same else
+                       f"the operands of every nested BoolOp are taken in, whatever its operator: the bounds of `{subject}` in `x < 3 and (x < 1 or y > 0)` are compared as if all three "
+                       "were joined by `and`, and the expression becomes `x < 1 or y > 0`")
+    if n == 0:
+        res.undecided("R17.19", "pyrefact/symbolic_math.py:0", "symbolic_math", "flattening of nested and/or expressions", "none found (simplify_boolean_expressions is expected)")
+
+
+# ------------------------------------------------------------------------------------------------ R17.18
+def _r17_18(prog: Program, res: Result) -> None:
+    """A reader of signed integer literals (`-1`) answers `-operand.value` for the template it matched.  If the template admits more
+    than one unary operator (`(ast.USub, ast.UAdd)`) the answer has to depend on WHICH one matched; a single `-x` for both reads
+    `+7` as -7, and every bound, range and closed form computed from it is that of another program."""
+    n = 0
+    for fn in prog.funcs.values():
+        if fn.mod.name != "symbolic_math":
+            continue
+        for t in walk_own(fn.node):
+            if not (isinstance(t, ast.If) and isinstance(t.test, ast.Call) and norm(t.test.func).endswith("match_template") and len(t.test.args) == 2):
+                continue
+            tmpl = t.test.args[1]
+            if not (isinstance(tmpl, ast.Call) and norm(tmpl.func) == "ast.UnaryOp"):
+                continue
+            op = next((k.value for k in tmpl.keywords if k.arg == "op"), None)
+            ops = [norm(e) for e in (op.elts if isinstance(op, (ast.Tuple, ast.Set, ast.List)) else [op])] if op is not None else []
+            rets = [r for r in walk_body(t.body) if isinstance(r, ast.Return) and r.value is not None]
+            if not rets:
+                continue
+            n += 1
+            negating = [r for r in rets if isinstance(r.value, ast.UnaryOp) and isinstance(r.value.op, ast.USub)]
+            branches_on_op = any(isinstance(x, ast.Call) and norm(x.func) == "isinstance" and ".op" in norm(x) for x in ast.walk(t))
+            ok = ops == ["ast.USub"] and len(negating) == len(rets) or (len(ops) > 1 and branches_on_op) or (ops == ["ast.UAdd"] and not negating)
+            res.decide(ok, "R17.18", fn.loc(t), fn.fq, f"{short(t.test, 70)} # sign of a literal read through a unary operator",
+                       f"operators {ops}: the value is negated exactly for ast.USub" if ok else
+                       f"the template admits {ops} and the value is negated whichever of them matched: `+7` is read as -7 (`sum(range(+7, 5))`, `range(+2, 10)`)")
+    if n == 0:
+        res.undecided("R17.18", "pyrefact/symbolic_math.py:0", "symbolic_math", "readers of signed literals", "none found (_constant_int is expected)")
 
 
 # ------------------------------------------------------------------------------------------------ R17.17
